@@ -18,6 +18,8 @@
 
 #include <string>
 #include <optional>
+#include <string>
+#include <vector>
 
 #include "driveselector.h"
 
@@ -70,6 +72,9 @@ public:
 
   char current_directory;
   DFS::VolumeSelector current_volume;
+  // The names of the image files given with --file, so that a command
+  // which writes host files can avoid writing over one of them.
+  std::vector<std::string> image_file_names;
 
 private:
   friend class FileSystem;
